@@ -99,7 +99,25 @@ def ev(v, val, hooks=None):
                 return divmod(args[0], args[1])
         if op == 'mcall':
             base = ev(a[0], val, hooks)
-            args = [ev(x, val, hooks) for x in a[2:]]
+            args = [None if (isinstance(x, T) and x.op == 'kw')
+                    else ev(x, val, hooks) for x in a[2:]]
+            if isinstance(base, (str, bytes)) and a[1] in ('encode',
+                                                           'decode'):
+                kw = {}
+                pos = []
+                for x, raw in zip(args, a[2:]):
+                    if isinstance(raw, T) and raw.op == 'kw':
+                        kw[raw.args[0]] = ev(raw.args[1], val, hooks)
+                    else:
+                        pos.append(x)
+                try:
+                    return getattr(base, a[1])(*pos, **kw)
+                except UnicodeError as e:
+                    raise Raised(type(e).__name__)
+                except LookupError:
+                    raise Raised('LookupError')
+                except TypeError:
+                    raise Raised('TypeError')
             if isinstance(base, (str, bytes)) and a[1] in (
                     'lower', 'upper', 'strip', 'startswith', 'endswith',
                     'lstrip', 'rstrip', 'replace', 'split', 'count', 'join',
